@@ -721,7 +721,7 @@ def run(ctx):
                        "trusted base: vf.model.arscw (round-tripped through its own reader, which also reads every shipped resources.arsc)"]
     for i, m in enumerate(fixed_cases()):
         check_table(ctx, m, "fixed%d" % i)
-    n = 640 if ctx.quick else 40000
+    n = 640 if ctx.quick else 160000
     per = n // 16
     ctx.run_shards(MOD, "shard", [[k * per, (k + 1) * per] for k in range(16)], timeout=1500)
     ctx.require_counter("ARSCParser", 200)
